@@ -15,17 +15,28 @@
      <class> <producer> <derivation> <shape>     (constructor names)
 
    `model_front stages` (third pass): the line of `run` followed by four more fields
-     vers     : path,a.b.c|none,0|1;...      of every file that parses: its `pragma circom` version and whether it has a
-                                             main component (harness `front stages`)
-     codes    : 14 numbers  id,name of CompilerVersionError, NoCompilerVersionWarning, MultipleMainInComponent, TupleError,
-                            AnonymousComponentError, ParameterNameCollision, UninitializedSymbolInExpression (the caller's numbering)
+     vers     : path,a.b.c|none,0|1,id;...   of every file that parses, in the order of the file ids: its `pragma circom`
+                                             version, whether it has a main component, and its file id in the real
+                                             FileLibrary (harness `front stages`)
+     codes    : 16 numbers  id,name of CompilerVersionError, NoCompilerVersionWarning, MultipleMainInComponent, TupleError,
+                            AnonymousComponentError, ParameterNameCollision, UninitializedSymbolInExpression,
+                            SameSymbolDeclaredTwice (the caller's numbering)
      lib      : s,s,..;s,s,..                the line starts of every file of the FileLibrary, by file id
-     prog     : (prog (def KIND NAME (params P ..) FILE START END <body>) ..)   the definitions as the parser hands them on
+     prog     : (prog (def KIND NAME (params P ..) FILE START END <body>) ..)   ALL definitions the single-file parser yields for
+                                             the files that parse, in file-id order then source order, duplicates included;
+                                             [defs_of p] = those whose FILE is the id `vers` gives for p, in order
    and prints the JSON of `run` with one more key
-     stage    : {"reports": [[category, id, name, [primary file ids]], ..],      Model.FrontStages.stage_items + sugar_items
-                 "defs": [[kind, name, null | [category, id, name, [pfiles]]], ..], the definitions handed to the runner and the
-                                                                                 d_err Model.FrontStages.stage_def gives them
-                 "metas_ok": bool}                                               every meta of a body lies in the file of its definition
+     stage    : {"reports": [[category, id, name, [primary file ids]], ..],      Model.FrontStages.stage_items + merger_items
+                                                                                 (["error", id, name, [file of the duplicate,
+                                                                                 file of the first]]) + sugar_items
+                 "defs": [[kind, name, null | [category, id, name, [pfiles]]], ..], the definitions handed to the runner (of the
+                                                                                 library keep_first makes) and the d_err
+                                                                                 Model.FrontStages.stage_def gives them
+                 "metas_ok": bool,                                               every meta of a body lies in the file of its
+                                                                                 definition (all definitions)
+                 "defs_file_ok": bool,                                           the definitions of the i-th FileLibrary entry of
+                                                                                 the MODEL carry the file id i
+                 "all_defs": n, "kept": n}                                       |all_definitions|, |keep_first all_definitions|
                 | null (Model.Desugar did not answer DOk)
      compiler_version : Gen.CompilerVersion.compiler_version
    through Model.FrontStages.stage_run (identity hash orders, the Goldilocks prime, pass budgets 4/4 as in C01's chain driver;
@@ -148,40 +159,40 @@ let stages line =
     let (d, argv, libs, pf_id, pf_name) as base = parse_fields [argv; libs; canon; dirs; files; contents; pf_id; pf_name] in
     let vers = Stdlib.List.map (fun e ->
         match Stdlib.String.split_on_char ',' e with
-        | [p; v; m] ->
+        | [p; v; m; id] ->
           let v = (match Stdlib.String.split_on_char '.' v with
               | [a; b; c] -> Some ((nat_of_int (int_of_string a), nat_of_int (int_of_string b)), nat_of_int (int_of_string c))
               | _ -> None) in
-          (cstring p, (v, m = "1"))
+          (cstring p, (v, m = "1", n_of_int (int_of_string id)))
         | _ -> failwith "vers") (split ';' vers) in
-    let pragma p = (match Stdlib.List.assoc_opt p vers with Some (v, _) -> v | None -> None) in
-    let has_main p = (match Stdlib.List.assoc_opt p vers with Some (_, m) -> m | None -> false) in
+    let pragma p = (match Stdlib.List.assoc_opt p vers with Some (v, _, _) -> v | None -> None) in
+    let has_main p = (match Stdlib.List.assoc_opt p vers with Some (_, m, _) -> m | None -> false) in
     let cs = (match Stdlib.List.map (fun x -> z_of_int (int_of_string x)) (split ',' codes) with
-        | [a1; a2; b1; b2; c1; c2; d1; d2; e1; e2; f1; f2; g1; g2] ->
+        | [a1; a2; b1; b2; c1; c2; d1; d2; e1; e2; f1; f2; g1; g2; h1; h2] ->
           let c i n = { FrontStages.c_id = i; c_name = n } in
           { FrontStages.c_version_error = c a1 a2; c_no_version = c b1 b2; c_multiple_main = c c1 c2; c_tuple = c d1 d2;
-            c_anonymous = c e1 e2; c_param_collision = c f1 f2; c_undefined = c g1 g2 }
+            c_anonymous = c e1 e2; c_param_collision = c f1 f2; c_undefined = c g1 g2; c_same_symbol = c h1 h2 }
         | _ -> failwith "codes") in
     let lib = Stdlib.List.map (fun f -> Stdlib.List.map (fun x -> n_of_int (int_of_string x)) (split ',' f)) (split ';' lib) in
     let defs = (match Lib_astwire.parse_sx prog with
         | Lib_astwire.L (Lib_astwire.A "prog" :: defs) -> Stdlib.List.map decode_def defs
         | _ -> failwith "prog") in
-    let is_fn dd = (dd.PipelineMirrors.d_kind = Ir.KFunction) in
-    let pr = { PipelineMirrors.pr_lib = lib;
-               pr_templates = Stdlib.List.filter (fun dd -> not (is_fn dd)) defs;
-               pr_functions = Stdlib.List.filter is_fn defs } in
+    let defs_of p = (match Stdlib.List.assoc_opt p vers with
+        | Some (_, _, id) -> Stdlib.List.filter (fun dd -> dd.PipelineMirrors.d_pfile = Some id) defs
+        | None -> []) in
     let extra () =
       let cv = CompilerVersion.compiler_version in
       let cvs = Printf.sprintf ", \"compiler_version\": [%d, %d, %d]" (int_of_nat (fst (fst cv))) (int_of_nat (snd (fst cv))) (int_of_nat (snd cv)) in
-      match FrontStages.stage_run cs pf_id pf_name Dom.id_order (fun l -> l) goldilocks budget budget d pragma has_main argv libs pr
+      match FrontStages.stage_run cs pf_id pf_name Dom.id_order (fun l -> l) goldilocks budget budget d pragma has_main argv libs lib defs_of
               ExpandSpec.stmt_metas with
       | Ok (Some v) ->
-        Printf.sprintf ", \"stage\": {\"reports\": [%s], \"defs\": [%s], \"metas_ok\": %b}%s"
+        Printf.sprintf ", \"stage\": {\"reports\": [%s], \"defs\": [%s], \"metas_ok\": %b, \"defs_file_ok\": %b, \"all_defs\": %d, \"kept\": %d}%s"
           (Stdlib.String.concat ", " (Stdlib.List.map show_full v.FrontStages.sv_reports))
           (Stdlib.String.concat ", " (Stdlib.List.map (fun ((k, n), e) ->
                Printf.sprintf "[\"%s\", \"%s\", %s]" (kind_name k) (coqstring n)
                  (match e with None -> "null" | Some r -> show_full r)) v.FrontStages.sv_defs))
-          v.FrontStages.sv_metas_ok cvs
+          v.FrontStages.sv_metas_ok v.FrontStages.sv_defs_file_ok (int_of_nat v.FrontStages.sv_all_defs)
+          (int_of_nat v.FrontStages.sv_kept) cvs
       | _ -> ", \"stage\": null" ^ cvs in
     run_with extra base
   | _ -> failwith "fields"
@@ -197,7 +208,7 @@ let class_name = function
 let producer_name = function
   | NoSilentSpec.ByIncludes -> "ByIncludes" | NoSilentSpec.ByVersionCheck -> "ByVersionCheck"
   | NoSilentSpec.ByMainMatch -> "ByMainMatch" | NoSilentSpec.ByDesugarer -> "ByDesugarer"
-  | NoSilentSpec.ByLifter -> "ByLifter" | NoSilentSpec.ByOtherStage -> "ByOtherStage"
+  | NoSilentSpec.ByLifter -> "ByLifter" | NoSilentSpec.ByMerger -> "ByMerger"
 let derivation_name = function
   | NoSilentSpec.Derived -> "Derived" | NoSilentSpec.DerivedUpToLocation -> "DerivedUpToLocation"
   | NoSilentSpec.Assumed -> "Assumed"
@@ -206,7 +217,7 @@ let shape_name = function
   | NoSilentSpec.ShIncludeError -> "ShIncludeError" | NoSilentSpec.ShVersionError -> "ShVersionError"
   | NoSilentSpec.ShMultipleMain -> "ShMultipleMain" | NoSilentSpec.ShSugarError -> "ShSugarError"
   | NoSilentSpec.ShParamCollision -> "ShParamCollision" | NoSilentSpec.ShLiftError -> "ShLiftError"
-  | NoSilentSpec.ShOtherInNamedFile -> "ShOtherInNamedFile"
+  | NoSilentSpec.ShDuplicate -> "ShDuplicate" | NoSilentSpec.ShOtherInNamedFile -> "ShOtherInNamedFile"
 
 let () =
   match Array.to_list Sys.argv with
